@@ -13,6 +13,7 @@ import DimModel.Props.C12
 import DimModel.Props.C17
 import DimModel.Proofs.C16
 import DimModel.Proofs.C16Ds
+import DimModel.Proofs.C16Ds2
 import DimModel.Proofs.C16More
 namespace DimModel
 open Lib
@@ -792,6 +793,101 @@ theorem takeAxisIntsDs_attrs {α : Type} (ds r : Ds α) (axis : DimKey) (is : Li
         have hs := takeAxisPosDs_attrs ds r _ _ h
         exact ⟨hs.1, hs.2.2.2, takeAxisPosDs_axis_attrs ds r _ _ h⟩
 
+/-! ### the remaining Dataset mirrors (helpers: `Proofs/C16Ds2.lean`) -/
+
+open DSV in
+/-- `stack_ds` (with or without `align=`): a fresh Dataset - Dataset metadata DROPPED (the inputs' are not consulted),
+every variable's metadata DROPPED (`stack`); without alignment every axis has no metadata (the new axis) or the name
+and metadata of an axis of a variable of one of the inputs -/
+theorem stackDsA_attrs {α : Type} [Inhabited α] (nan : α) (datasets : List (Ds α)) (axis : Option String)
+    (keys : List Label) (keyKind : Kind) (doAlign : Bool) (join : Join) (sort : Bool) (r : Ds α)
+    (h : stackDsA nan datasets axis keys keyKind doAlign join sort = .ok r) :
+    r.attrs = [] ∧ ∀ kv ∈ r.vars, kv.2.attrs = [] :=
+  ⟨(C16.stackDsA_spec nan datasets axis keys keyKind doAlign join sort r h).1,
+   (C16.stackDsA_spec nan datasets axis keys keyKind doAlign join sort r h).2.1⟩
+
+open DSV in
+theorem stackDsA_axis_attrs {α : Type} [Inhabited α] (nan : α) (datasets : List (Ds α)) (axis : Option String)
+    (keys : List Label) (keyKind : Kind) (join : Join) (sort : Bool) (r : Ds α)
+    (h : stackDsA nan datasets axis keys keyKind false join sort = .ok r) : ∀ e ∈ r.axes, C16.FromVarAxis datasets e :=
+  (C16.stackDsA_spec nan datasets axis keys keyKind false join sort r h).2.2 rfl
+
+open DSV in
+/-- `concatenate_ds` (with or without `align=`): Dataset and variable metadata DROPPED; without alignment every axis
+has no metadata (the concatenated one) or the name and metadata of an axis of a variable of one of the inputs -/
+theorem concatenateDsA_attrs {α : Type} (nan : α) (datasets : List (Ds α)) (axis : DimKey) (doAlign : Bool) (join : Join)
+    (sort : Bool) (r : Ds α) (h : concatenateDsA nan datasets axis doAlign join sort = .ok r) :
+    r.attrs = [] ∧ ∀ kv ∈ r.vars, kv.2.attrs = [] :=
+  ⟨(C16.concatenateDsA_spec nan datasets axis doAlign join sort r h).1,
+   (C16.concatenateDsA_spec nan datasets axis doAlign join sort r h).2.1⟩
+
+open DSV in
+theorem concatenateDsA_axis_attrs {α : Type} (nan : α) (datasets : List (Ds α)) (axis : DimKey) (join : Join)
+    (sort : Bool) (r : Ds α) (h : concatenateDsA nan datasets axis false join sort = .ok r) :
+    ∀ e ∈ r.axes, C16.FromVarAxis datasets e :=
+  (C16.concatenateDsA_spec nan datasets axis false join sort r h).2.2 rfl
+
+open DSV in
+/-- `Dataset.mean()` … without an axis: `Dataset(dict)` - Dataset metadata DROPPED; a variable keeps its own
+(`DimArray.<reduction>` keeps it) or has none (scalar result wrapped by `DimArray(scalar)`) -/
+theorem reduceAllDs_attrs {α : Type} (nan : α) (red : List α → α) (ds r : Ds α) (h : reduceAllDs nan red ds = .ok r) :
+    r.attrs = [] ∧ ∀ kv ∈ r.vars, kv.2.attrs = [] ∨ ∃ kv0 ∈ ds.vars, kv.2.attrs = kv0.2.attrs :=
+  C16.reduceAllDs_spec nan red ds r h
+
+open DSV in
+/-- `Dataset.mean(axis=name)` …: as `reduceAllDs`; variables without the dimension keep theirs -/
+theorem reduceDs_attrs {α : Type} (nan : α) (red : List α → α) (ds r : Ds α) (name : String)
+    (h : reduceDs nan red ds name = .ok r) :
+    r.attrs = [] ∧ ∀ kv ∈ r.vars, kv.2.attrs = [] ∨ ∃ kv0 ∈ ds.vars, kv.2.attrs = kv0.2.attrs :=
+  C16.reduceDs_spec nan red ds r name h
+
+open DSV in
+/-- `Dataset._binary_op` (`ds + 1`, `ds1 * ds2`): Dataset and variable metadata DROPPED -/
+theorem binaryOpDs_attrs {α : Type} (nan : α) (f : α → α → α) (self r : Ds α) (rhs : Operand α)
+    (h : binaryOpDs nan f self rhs = .ok r) : r.attrs = [] ∧ ∀ kv ∈ r.vars, kv.2.attrs = [] :=
+  ⟨(C16.binaryOpDs_spec nan f self r rhs h).1, (C16.binaryOpDs_spec nan f self r rhs h).2.1⟩
+
+open DSV in
+/-- axis metadata is KEPT by Dataset arithmetic: every axis of the result has no metadata or the (name, metadata) pair
+of an axis (or grouped-axis member) of a variable of one of the two operands -/
+theorem binaryOpDs_axis_attrs {α : Type} (nan : α) (f : α → α → α) (self r : Ds α) (rhs : Operand α)
+    (h : binaryOpDs nan f self rhs = .ok r) :
+    ∀ e ∈ r.axes, e.attrs = [] ∨ ∃ ds, (ds = self ∨ rhs = .ds ds) ∧ ∃ kv ∈ ds.vars, (e.name, e.attrs) ∈ metaAll kv.2.axes :=
+  (C16.binaryOpDs_spec nan f self r rhs h).2.2
+
+open DSV in
+theorem stackDs_attrs {α : Type} [Inhabited α] (nan : α) (datasets : List (Ds α)) (axis : Option String)
+    (keys : List Label) (keyKind : Kind) (r : Ds α) (h : stackDs nan datasets axis keys keyKind = .ok r) :
+    r.attrs = [] ∧ ∀ kv ∈ r.vars, kv.2.attrs = [] :=
+  ⟨(C16.stackDs_spec nan datasets axis keys keyKind r h).1, (C16.stackDs_spec nan datasets axis keys keyKind r h).2.1⟩
+
+open DSV in
+theorem stackDs_axis_attrs {α : Type} [Inhabited α] (nan : α) (datasets : List (Ds α)) (axis : Option String)
+    (keys : List Label) (keyKind : Kind) (r : Ds α) (h : stackDs nan datasets axis keys keyKind = .ok r) :
+    ∀ e ∈ r.axes, C16.FromVarAxis datasets e := (C16.stackDs_spec nan datasets axis keys keyKind r h).2.2
+
+open DSV in
+theorem concatenateDs_attrs {α : Type} (nan : α) (datasets : List (Ds α)) (axis : DimKey) (r : Ds α)
+    (h : concatenateDs nan datasets axis = .ok r) : r.attrs = [] ∧ ∀ kv ∈ r.vars, kv.2.attrs = [] :=
+  ⟨(C16.concatenateDs_spec nan datasets axis r h).1, (C16.concatenateDs_spec nan datasets axis r h).2.1⟩
+
+open DSV in
+theorem concatenateDs_axis_attrs {α : Type} (nan : α) (datasets : List (Ds α)) (axis : DimKey) (r : Ds α)
+    (h : concatenateDs nan datasets axis = .ok r) : ∀ e ∈ r.axes, C16.FromVarAxis datasets e :=
+  (C16.concatenateDs_spec nan datasets axis r h).2.2
+
+open DSV in
+/-- `Dataset.reindex_like`: Dataset and variable metadata kept -/
+theorem reindexLikeDs_attrs {α : Type} (nan : α) (ds r : Ds α) (tmpl : List Axis) (h : reindexLikeDs nan ds tmpl = .ok r) :
+    r.attrs = ds.attrs ∧ ∀ kv ∈ r.vars, ∃ kv0 ∈ ds.vars, kv.2.attrs = kv0.2.attrs := C16.reindexLikeDs_spec nan ds r tmpl h
+
+open DSV in
+/-- `Dataset.copy()`: the Dataset metadata written onto the fresh Dataset (`Attrs.update [] ds.attrs`), the variables
+keep theirs -/
+theorem copyDs_attrs {α : Type} (nan : α) (ds r : Ds α) (h : copyDs nan ds = .ok r) :
+    r.attrs = Attrs.update [] ds.attrs ∧ ∀ kv ∈ r.vars, ∃ kv0 ∈ ds.vars, kv.2.attrs = kv0.2.attrs :=
+  C16.copyDs_spec nan ds r h
+
 /-! ### non-vacuity: the success hypotheses on concrete arrays that carry array-level and axis-level metadata,
 and the exact metadata of the results where an axis LOSES or CHANGES its metadata -/
 
@@ -1056,11 +1152,18 @@ metadata of the axes (by name).  Every entry is a theorem of this file (or the o
 | `DSV.unaryOpDs` (`-ds`)            | DROPPED (Dataset and variables) | `unaryOpDs_attrs` |                                                  |                                  |
 | `DSV.rbinaryOpDs` (`3 - ds`)       | DROPPED (Dataset and variables) | `rbinaryOpDs_attrs` |                                                |                                  |
 | `DSV.takeAxisIntsDs`               | kept (Dataset and variables) | `takeAxisIntsDs_attrs` | all kept by name                                     | `takeAxisIntsDs_attrs`           |
+| `DSV.stackDsA`, `DSV.stackDs` (`stack_ds`) | DROPPED (Dataset and variables) | `stackDsA_attrs`, `stackDs_attrs` | without `align=`: none (new axis) or the pair of an axis of a variable of an input | `stackDsA_axis_attrs`, `stackDs_axis_attrs` |
+| `DSV.concatenateDsA`, `DSV.concatenateDs` (`concatenate_ds`) | DROPPED (Dataset and variables) | `concatenateDsA_attrs`, `concatenateDs_attrs` | without `align=`: none (concatenated axis) or the pair of an axis of a variable of an input | `concatenateDsA_axis_attrs`, `concatenateDs_axis_attrs` |
+| `DSV.reduceAllDs`, `DSV.reduceDs` (`Dataset.mean` …) | Dataset DROPPED; variable: kept, or none (scalar result) | `reduceAllDs_attrs`, `reduceDs_attrs` |                          |                                  |
+| `DSV.binaryOpDs` (`ds + 1`, `ds1 * ds2`) | DROPPED (Dataset and variables) | `binaryOpDs_attrs` | KEPT: none, or a pair of an axis of a variable of an operand | `binaryOpDs_axis_attrs`          |
+| `DSV.reindexLikeDs`                | kept (Dataset and variables) | `reindexLikeDs_attrs` |                                                       |                                  |
+| `DSV.copyDs`                       | Dataset: rewritten onto a fresh Dataset (`Attrs.update []`); variables kept | `copyDs_attrs` |                     |                                  |
 
 Mirror functions that return an array / Dataset and have NO pair yet (decided by the direct sweep of harness/props/c16.py only):
-`stackDsA`, `concatenateDsA`, `reindexAxisDsM`, `reduceAllDs`, `readFile`, `readMulti`, `DatasetCtor.construct` (a state machine
-over axis identities without a metadata field), `binaryOpDs`, `stackDs`, `concatenateDs`, `reduceDs`, `reindexLikeDs`, `copyDs`,
-`interpAxisDs`, `interpLike`, `interpLikeDs`.  Operations of the sweep without any mirror: broadcast (pointwise) indexing
+`reindexAxisDsM`, `readFile`, `readMulti`, `DatasetCtor.construct` (a state machine over axis identities without a metadata
+field), `interpAxisDs`, `interpLike`, `interpLikeDs`; no axis half yet: `stackDsA` / `concatenateDsA` with `align=True` (the axes
+of the ALIGNED Datasets are not traced back to the inputs), `reduceAllDs`, `reduceDs`, `reindexLikeDs`, `copyDs`, `unaryOpDs`,
+`rbinaryOpDs`.  Operations of the sweep without any mirror: broadcast (pointwise) indexing
 `take(..., broadcast=True)`, the `attrs` property setter / deleter, `Axis.__getitem__` with ndarray / boolean keys.
 -/
 
